@@ -40,6 +40,7 @@ func TestVerifC13(t *testing.T) {
 	defer func() { websocket.DefaultDialer = old }()
 	const backend = "backend.verif:1234"
 	var wrappedSeen []string
+	var wrappedHdr map[string][]string
 	var wrappedBody int64 = -1
 	var wrappedBodyErr string
 	wrapped := http.HandlerFunc(func(w http.ResponseWriter, r *http.Request) {
@@ -60,6 +61,12 @@ func TestVerifC13(t *testing.T) {
 		n, err := io.Copy(io.Discard, r.Body)
 		mu.Lock()
 		wrappedSeen = append(wrappedSeen, r.Method+" "+r.URL.RequestURI())
+		wrappedHdr = map[string][]string{}
+		for _, k := range []string{"Accept", "Accept-Encoding", "Accept-Language", "Cookie", "X-Custom", "Range", "If-None-Match"} {
+			if v := r.Header.Values(k); len(v) > 0 {
+				wrappedHdr[k] = v
+			}
+		}
 		wrappedBody = n
 		wrappedBodyErr = ""
 		if err != nil {
@@ -122,12 +129,24 @@ func TestVerifC13(t *testing.T) {
 			wrappedSeen = nil
 			mu.Unlock()
 			req := httptest.NewRequest(method, "http://agent.local"+p+"?q=1", nil)
+			// what a browser sends with a page load or a fetch: the normal path gets it as it is
+			sent := map[string][]string{"Accept": {[]string{"text/html,application/xhtml+xml,*/*;q=0.8", "application/json", "*/*"}[len(p)%3]}, "Accept-Encoding": {[]string{"gzip, deflate, br", "identity", "br", "gzip"}[(len(p)+len(method))%4]},
+				"Accept-Language": {"de,en;q=0.7"}, "Cookie": {"a=1; b=2"}, "X-Custom": {"one", "two"}, "If-None-Match": {"\"v1\""}}
+			for k, vs := range sent {
+				for _, v := range vs {
+					req.Header.Add(k, v)
+				}
+			}
 			rec := httptest.NewRecorder()
+			mu.Lock()
+			wrappedHdr = nil
+			mu.Unlock()
 			h.ServeHTTP(rec, req)
 			mu.Lock()
 			ws := append([]string(nil), wrappedSeen...)
+			wh := wrappedHdr
 			mu.Unlock()
-			out.emit(map[string]interface{}{"kind": "route", "method": method, "path": p, "status": rec.Code, "location": rec.Header().Get("Location"), "wrapped_saw": ws})
+			out.emit(map[string]interface{}{"kind": "route", "method": method, "path": p, "status": rec.Code, "location": rec.Header().Get("Location"), "wrapped_saw": ws, "sent_header": sent, "wrapped_saw_header": wh})
 		}
 	}
 	// a streamed response on a path outside the shim prefix, over real HTTP: the first piece reaches the client when it is
